@@ -74,6 +74,22 @@ theorem sse_cr_breaks_event :
 theorem sse_cr_not_intact :
     parse (SSE.body [ascii "{\"a\":\r1}"]) ≠ [⟨[], ascii "{\"a\":\r1}", []⟩] := by decide
 
+/-- removing raw CR/LF bytes from a message (both are only insignificant white space in a JSON text;
+inside JSON strings they are always escaped) -/
+def stripCRLF (m : Bytes) : Bytes := m.filter (fun b => b != 10 && b != 13)
+
+/-- a possible repair of finding C32-1 is sound for **all** messages: if `handler_sse.go` (or the JSON
+encoder, as it already does for LF) dropped raw CR/LF bytes, every message would arrive as exactly
+one event carrying the stripped (JSON-equivalent) text. -/
+theorem sse_strip_fix_sound (msgs : List Bytes) :
+    parse (SSE.body (msgs.map stripCRLF)) = (msgs.map stripCRLF).map (fun m => (⟨[], m, []⟩ : Event)) := by
+  apply sse_parse_frame_partial
+  intro m hm b hb
+  rw [List.mem_map] at hm
+  obtain ⟨m0, _, rfl⟩ := hm
+  have := (List.mem_filter.mp hb).2
+  simpa using this
+
 /-- a raw LF inside a message splits the HTTP-stream record -/
 theorem json_lf_breaks_record :
     Lines.split (jsonBody [ascii "{\"a\":\n1}"]) = [ascii "{\"a\":", ascii "1}"] := by decide
